@@ -50,8 +50,18 @@ Proof.
        | H : pdone ?p <> [] -> _, A : pdone ?p <> [] |- _ => specialize (H A)
        end.
   all: try (timeout 2 tauto).
-  all: repeat match goal with H : exists _, _ |- _ => destruct H end.
   all: try match goal with E : pl _ = PLive ?p |- _ => assert (SP : 0 <= pstarted p) by (destruct A1b as (B1 & _); destruct (B1 p E) as (B2 & _); lia) end.
+  all: repeat match goal with
+       | H : _ \/ _ |- _ => destruct H
+       | H : _ /\ _ |- _ => destruct H
+       | H : exists _, _ |- _ => destruct H
+       | H : False |- _ => destruct H
+       | H : FPostO _ = FPostO _ |- _ => inversion H; subst; clear H
+       end.
+  all: try discriminate.
+  all: try congruence.
+  all: try lia.
+  all: try (timeout 5 tauto).
   all: try solve [timeout 10 intuition (try discriminate; try congruence; try lia; eauto)].
   all: try (destruct I2 as [[[X | X] | [X | X]] | [(l1 & X) | [X | X]]]; eauto 8; fail).
   all: show.
